@@ -95,6 +95,7 @@ fn main() {
             vcheck::eng::install_panic_hook();
             // keep our own report on the real stdout: duplicate it before the engine's output is redirected
             let saved = unsafe { libc::dup(1) };
+            *vcheck::srch::REPLAY_NOTE.lock().unwrap() = Some((saved, p.id().to_string(), args[3].clone()));
             vcheck::capture::redirect_stdout(&outdir, "replay");
             let r = p.replay(&ctx, &args[3]);
             vcheck::capture::cleanup();
